@@ -26,6 +26,10 @@ EDITS = [
   "data_grp = h5grp[axis]['matrix']", "data_grp = h5grp['observation']['matrix']"),
  ('indices-from-indptr', 'semantic', 'indices is read from the indptr dataset',
   'h5_indices = data_grp["indices"]', 'h5_indices = data_grp["indptr"]'),
+ ('parser-taxonomy-general', 'semantic', "axis_load: the category 'taxonomy' is parsed by general_parser",
+  "parser['taxonomy'] = vlen_list_of_str_parser", "parser['taxonomy'] = general_parser"),
+ ('none-when-any', 'semantic', 'axis_load: metadata becomes None when some id HAS a category',
+  "md = md if any(md) else None", "md = None if any(md) else md"),
  ('lets-swapped', 'preserving', 'the two independent assignments data / indices swapped',
   "            data = h5_data\n            indices = h5_indices\n", "            indices = h5_indices\n            data = h5_data\n"),
  ('axis-list-order', 'preserving', 'the list of the axis test in the other order',
